@@ -29,17 +29,18 @@ import (
 var seedv int64
 
 type Case struct {
-	T     int    `json:"type"`
-	KeyA  int    `json:"client_key"`   // key the request was created for
-	KeyB  int    `json:"issuer_key"`   // key that evaluates
-	ReqI  int    `json:"state_of"`     // request whose state finalizes
-	ReqJ  int    `json:"response_for"` // request that was evaluated
-	Mut   string `json:"mutation"`     // none | bit | trunc | ext | elems | reeval
-	Arg   int    `json:"arg,omitempty"`
-	Map   []int  `json:"element_map,omitempty"` // type 5: output position -> original element index
-	N     int    `json:"batch,omitempty"`
-	Salt  int    `json:"salt_kind,omitempty"`             // type 2: 0 = CreateTokenRequest; k>0 = CreateTokenRequestWithBlind with a salt of saltLens[k-1] bytes
-	After bool   `json:"after_honest_finalize,omitempty"` // the same request state has finalized the honest response of its own request just before
+	T          int    `json:"type"`
+	KeyA       int    `json:"client_key"`   // key the request was created for
+	KeyB       int    `json:"issuer_key"`   // key that evaluates
+	ReqI       int    `json:"state_of"`     // request whose state finalizes
+	ReqJ       int    `json:"response_for"` // request that was evaluated
+	Mut        string `json:"mutation"`     // none | bit | trunc | ext | elems | reeval
+	Arg        int    `json:"arg,omitempty"`
+	Map        []int  `json:"element_map,omitempty"` // type 5: output position -> original element index
+	N          int    `json:"batch,omitempty"`
+	Salt       int    `json:"salt_kind,omitempty"`                // type 2: 0 = CreateTokenRequest; k>0 = CreateTokenRequestWithBlind with a salt of saltLens[k-1] bytes
+	ThenHonest bool   `json:"then_the_honest_response,omitempty"` // the mutated response is offered first (and refused); judged is the finalization of the HONEST response on the same state afterwards
+	After      bool   `json:"after_honest_finalize,omitempty"`    // the same request state has finalized the honest response of its own request just before
 }
 
 var saltLens = []int{0, 20, 47, 48, 49, 64}
@@ -344,6 +345,28 @@ func run(c Case) (string, *mc.Viol) {
 			}
 		}
 	}
+	if c.ThenHonest {
+		// a refused response must leave the state able to finalize the genuine one
+		var e1 error
+		var t1 [][]byte
+		if p := mc.Catch(func() { t1, e1 = finalize(in) }); p != "" {
+			return "panic", &mc.Viol{Sig: fmt.Sprintf("type%d finalization panics (%s)", c.T, c.Mut), What: fmt.Sprintf("%s: %s", c.label(), p)}
+		}
+		_ = t1
+		if e1 == nil {
+			return "first-not-refused", nil // judged by the case without ThenHonest
+		}
+		if p := mc.Catch(func() { toks, ferr = finalize(append([]byte{}, resp...)) }); p != "" {
+			return "panic", &mc.Viol{Sig: fmt.Sprintf("type%d finalization panics (honest response after a refused one)", c.T), What: fmt.Sprintf("%s: %s", c.label(), p)}
+		}
+		if ferr != nil {
+			return "honest-rejected-after-refusal", &mc.Viol{Sig: fmt.Sprintf("type%d finalization rejects the honest response after it has refused another one on the same state", c.T), What: fmt.Sprintf("%s: %v", c.label(), ferr)}
+		}
+		if verr := verify(toks); verr != nil {
+			return "invalid-token-after-refusal", &mc.Viol{Sig: fmt.Sprintf("type%d finalization of the honest response yields an invalid token after the state has refused another response", c.T), What: fmt.Sprintf("%s: %v", c.label(), verr)}
+		}
+		return "honest-valid-token-after-a-refused-response", nil
+	}
 	if p := mc.Catch(func() { toks, ferr = finalize(in) }); p != "" {
 		return "panic", &mc.Viol{Sig: fmt.Sprintf("type%d finalization panics (%s)", c.T, c.Mut), What: fmt.Sprintf("%s: %s", c.label(), p)}
 	}
@@ -448,6 +471,15 @@ func main() {
 				// the honest response finalized a second time by the same state, after the caller has
 				// scrubbed the tokens of the first call
 				cases = append(cases, Case{T: t, KeyA: a, KeyB: a, ReqI: i, ReqJ: i, Mut: "none", N: n, After: true})
+				if i == 0 {
+					// a corrupted response first (refused), then the honest one on the same state
+					for bit := 0; bit < len(resp)*8; bit += 7 {
+						cases = append(cases, Case{T: t, KeyA: a, KeyB: a, ReqI: i, ReqJ: i, Mut: "bit", Arg: bit, N: n, ThenHonest: true})
+					}
+					for l := 0; l < len(resp); l += 11 {
+						cases = append(cases, Case{T: t, KeyA: a, KeyB: a, ReqI: i, ReqJ: i, Mut: "trunc", Arg: l, N: n, ThenHonest: true})
+					}
+				}
 				if a == 0 && i == 0 {
 					// the same corruptions offered to a state that has just finalized its honest response
 					for bit := 0; bit < len(resp)*8; bit += 5 {
